@@ -21,3 +21,8 @@ register_driver('util.chunks.', 'history_native.py')
 register_driver('util.resolve_limit.', 'history_native.py')
 register_driver('session.SessionManager._notify_sessions.', 'sessionmgr_native.py')
 register_driver('session.SessionManager.limited_history.', 'sessionmgr_native.py')
+for _f in ('_flush_compaction', 'clear_excess', '_cancel_compaction', '_compact_hashX', '_compact_prefix', '_compact_history',
+           'flush', 'backup', 'add_unflushed', 'write_state'):
+    register_driver('history.History.' + _f + '.', 'index_scenario.py')
+register_driver('db.DB.', 'index_scenario.py')
+register_driver('block_processor.BlockProcessor.', 'index_scenario.py')
